@@ -192,6 +192,10 @@ def _shard(args):
     prop, tier, seed, scale, hot, shard, nshards = args
     try:
         mod = importlib.import_module(prop.lower())
+        cov = (hot or {}).get('cov') or []
+        if cov:
+            import changecov
+            changecov.start(core.REPO, cov)
         ctx = core.Ctx(prop, tier, seed + 7919 * shard, scale, hot)
         known = core.load_known()
 
@@ -221,6 +225,7 @@ def _shard(args):
                 'pred_count': ctx.pred_count, 'pred_classes': ctx.pred_classes, 'case_classes': ctx.case_classes,
                 'n_cases': len(ctx.cases), 'samples': ctx.samples, 'max_dev': ctx.max_dev,
                 'exhaustive': ctx.exhaustive, 'notes': ctx.notes,
+                'cov_hit': (changecov.hits(core.REPO) if cov else []),
                 'distinct': len(set((c[0], c[1]) for c in ctx.cases))}
     except Exception:
         return {'ok': False, 'error': traceback.format_exc()}
@@ -234,11 +239,13 @@ def run_harness(prop, tier, seed, scale, hot):
         parts = pool.map(_shard, args)
     agg = {'mism': [], 'n_mism': 0, 'pred_fail': [], 'n_pred_fail': 0, 'pred_count': 0, 'pred_classes': {},
            'case_classes': {}, 'n_cases': 0, 'samples': [], 'max_dev': {}, 'F_lines': 0, 'Q_lines': 0,
-           'exhaustive': False, 'errors': [], 'distinct': 0, 'notes': [], 'known_counts': {}, 'overflow': 0}
+           'exhaustive': False, 'errors': [], 'distinct': 0, 'notes': [], 'known_counts': {}, 'overflow': 0,
+           'cov_hit': set()}
     for p in parts:
         if not p['ok']:
             agg['errors'].append(p['error'])
             continue
+        agg['cov_hit'] |= set(tuple(x) for x in p.get('cov_hit', []))
         agg['mism'] += p['mism']
         agg['n_mism'] += p['n_mism']
         agg['pred_fail'] += p['pred_fail']
@@ -411,7 +418,17 @@ def main():
     if fp['changed']:
         log('[S] source of modelled functions differs from the golden fingerprint: %s' % ', '.join(fp['changed'][:8]))
         scale = 4.0
+    # exercise obligation: the changed statements of functions in this property's call closure must be executed by
+    # the check (harness/changecov.py); only on a changed tree
+    cov_targets = []
+    if fp['changed']:
+        closure_, by_ = call_closure(getattr(mod, 'FUNCTIONS', []))
+        cov_targets = fingerprint.changed_statements([c for c in fp['changed'] if c in closure_])
+        if cov_targets:
+            hot = dict(hot)
+            hot['cov'] = cov_targets
     agg = run_harness(prop, tier, seed, scale, hot)
+    cov_hit = set(agg['cov_hit'])
     if agg['errors']:
         log(agg['errors'][0])
         sys.exit(2)
@@ -440,6 +457,7 @@ def main():
         for q in deps[:4]:
             modq = importlib.import_module(q.lower())
             aggq = run_harness(q, 'quick', seed, 1.0, hot)
+            cov_hit |= set(aggq['cov_hit'])
             newq = [f for f in aggq['pred_fail'] if not match_known(f, known, q, modq)]
             log('[S] dependency %s (models changed helper(s) %s): %d mismatches, %d new predicate failures' % (
                 q, ', '.join(c.split(':')[1] for c in ch[:3]), aggq['n_mism'], len(newq)))
@@ -453,6 +471,15 @@ def main():
         broken.append({'purity': impure[:20], 'why': 'functions in the call closure of the modelled code are not accepted '
                        'by the effect analysis (hidden state / writes to arguments, globals or self in a non-mutator); '
                        'the per-call model of this property assumes they are pure'})
+    not_ex = []
+    if cov_targets:
+        import changecov
+        not_ex = changecov.unexecuted(cov_targets, cov_hit)
+        if not_ex:
+            log('[S] %d of %d changed statements in the call closure were not executed by this check: %s' % (
+                len(not_ex), len(cov_targets), ', '.join('%s:%d' % (t['file'], t['first']) for t in not_ex[:6])))
+            broken.append({'not_exercised': not_ex[:30], 'why': 'changed statements of the implementation that no call of '
+                           'this check executed: neither the correspondence run nor the predicates say anything about them'})
     searched = False
     if broken and not new_fail:
         # failing-input search: a much larger exploration of the property's predicates on the implementation
@@ -462,6 +489,19 @@ def main():
         for f in agg2['pred_fail']:
             if not match_known(f, known, prop, mod):
                 new_fail.append(f)
+        if agg2['n_mism'] and not any('correspondence' in b for b in broken):
+            broken.append({'correspondence': agg2['mism'][:5], 'count': agg2['n_mism'], 'where': 'failing-input search'})
+        if not_ex:
+            cov_hit |= set(agg2['cov_hit'])
+            still = changecov.unexecuted(not_ex, cov_hit)
+            broken = [b for b in broken if 'not_exercised' not in b]
+            if still:
+                broken.append({'not_exercised': still[:30], 'why': 'changed statements of the implementation that no call of '
+                               'this check (failing-input search included) executed: neither the correspondence run nor '
+                               'the predicates say anything about them'})
+            else:
+                log('[search] the larger run executed every changed statement')
+            not_ex = still
         agg['search'] = {'pred_count': agg2['pred_count'], 'n_pred_fail': agg2['n_pred_fail'], 'n_cases': agg2['n_cases']}
     log('[S] %d cases (%d F lines, %d Q lines), %d mismatches; [I] %d predicate evaluations, %d failures (%d known)' % (
         agg['n_cases'], agg['F_lines'], agg['Q_lines'], agg['n_mism'], agg['pred_count'], agg['n_pred_fail'],
@@ -516,7 +556,8 @@ def main():
             'case_classes': agg['case_classes'],
             'predicate_failures': agg['n_pred_fail'], 'known_findings_hit': {k: v[1] for k, v in known_hits.items()},
             'max_ideal_vs_float_deviation': agg['max_dev'],
-            'source_fingerprint_changed': fp['changed'], 'hot_literals': hot,
+            'source_fingerprint_changed': fp['changed'], 'hot_literals': {k: v for k, v in hot.items() if k != 'cov'},
+            'changed_statements': {'in_call_closure': len(cov_targets), 'not_executed': not_ex[:30]},
             'failing_input_search': agg.get('search'),
             'samples': agg['samples'] or [{'note': 'no sample recorded'}],
             'exhaustive': bool(agg['exhaustive']),
